@@ -36,10 +36,15 @@ func (k msgServer) ClosePositions(goCtx context.Context, msg *types.MsgClosePosi
 			continue
 		}
 
-		err = k.CheckAndLiquidateUnhealthyPosition(ctx, &position, pool, ammPool, baseCurrency.Denom)
+		// errors are only logged, so each entry runs on a cache context that is written on success:
+		// an entry that fails part-way (e.g. after interest and funding were settled) leaves nothing behind
+		cacheCtx, write := ctx.CacheContext()
+		err = k.CheckAndLiquidateUnhealthyPosition(cacheCtx, &position, pool, ammPool, baseCurrency.Denom)
 		if err != nil {
 			// Add log about error or not liquidated
 			liqLog = append(liqLog, fmt.Sprintf("Position: Address:%s Id:%d cannot be liquidated due to err: %s", position.Address, position.Id, err.Error()))
+		} else {
+			write()
 		}
 	}
 
@@ -57,10 +62,13 @@ func (k msgServer) ClosePositions(goCtx context.Context, msg *types.MsgClosePosi
 			continue
 		}
 
-		err = k.CheckAndCloseAtStopLoss(ctx, &position, pool, baseCurrency.Denom)
+		cacheCtx, write := ctx.CacheContext()
+		err = k.CheckAndCloseAtStopLoss(cacheCtx, &position, pool, baseCurrency.Denom)
 		if err != nil {
 			// Add log about error or not closed
 			closeLog = append(closeLog, fmt.Sprintf("Position: Address:%s Id:%d cannot be liquidated due to err: %s", position.Address, position.Id, err.Error()))
+		} else {
+			write()
 		}
 	}
 
@@ -78,10 +86,13 @@ func (k msgServer) ClosePositions(goCtx context.Context, msg *types.MsgClosePosi
 			continue
 		}
 
-		err = k.CheckAndCloseAtTakeProfit(ctx, &position, pool, baseCurrency.Denom)
+		cacheCtx, write := ctx.CacheContext()
+		err = k.CheckAndCloseAtTakeProfit(cacheCtx, &position, pool, baseCurrency.Denom)
 		if err != nil {
 			// Add log about error or not closed
 			takeProfitLog = append(takeProfitLog, fmt.Sprintf("Position: Address:%s Id:%d cannot be liquidated due to err: %s", position.Address, position.Id, err.Error()))
+		} else {
+			write()
 		}
 	}
 
